@@ -77,13 +77,18 @@ def flows_of(out):
     return out.flows
 
 
-def expand_flows(flows, limit=64):
-    """split flows whose value is a top-level ITE into one flow per leaf (path condition extended)"""
+def expand_flows(flows, limit=64, deep=False):
+    """split flows whose value is a top-level ITE into one flow per leaf (path condition extended).
+    deep: tuples merged component-wise are split as well, on the outermost condition found in their components"""
     out = []
     work = list(flows)
     while work:
         pc, v = work.pop(0)
-        if v.op == "ite" and len(out) + len(work) < limit:
+        c = Tm.first_branch_cond(v) if deep and v.op == "tuple" else None
+        if c is not None and len(out) + len(work) < limit:
+            work.insert(0, (pc + (Tm.not_(c),), Tm.assume(v, c, False)))
+            work.insert(0, (pc + (c,), Tm.assume(v, c, True)))
+        elif v.op == "ite" and len(out) + len(work) < limit:
             work.insert(0, (pc + (Tm.not_(v.args[0]),), v.args[2]))
             work.insert(0, (pc + (v.args[0],), v.args[1]))
         else:
